@@ -1,35 +1,12 @@
-"""Per-property configuration of the generic driver."""
+"""Per-property configuration of the generic driver: one module
+driver/propcfg/Cxx.py per property, each defining CFG (see propcfg/README in
+AGENT_GUIDE.md for the keys)."""
+import glob
+import importlib
+import os
 
-COMMON_TB = [
-    "Coq 8.16.1 kernel and its vm_compute conversion (used to evaluate cases and in a few reflective sweeps); no native_compute",
-    "no axioms declared by this development; Print Assumptions of every property theorem is checked on every run",
-    "hand-written Gallina model (coq/theories); tied to /repo by this run's correspondence: the Rust harness "
-    "(/verif/harness, path dependency on /repo/dropshot, rebuilt from the working tree) and the Python driver that "
-    "writes the harness's cases as Gallina literals and reads coqc's verdict list; no extraction",
-]
-
-PROPS = {
-    "C05": {
-        "harness": "c05",
-        "coq_header": "From DS Require Import Base Versions Semver.\nFrom DSR Require Import Run_C05.",
-        "case_type": "c05case",
-        "judge": "judge",
-        "rule": "range cases: every range over a 7-element chain of real semver versions (all/from/until and all 49 "
-                "from-until index pairs, including unconstructible ones) probed at every chain version and with no "
-                "version; pair cases: every ordered pair of the 43 constructible ranges registered on one method+path "
-                "in both orders; header cases: fixed edge spellings plus seeded random values against four maxima. "
-                "Non-trivial: a range other than 'all' / a pair with neither side 'all' / a header that is present; "
-                "distinct by case content.",
-        "exhaustive_note": "range and pair groups are exhaustive over the chain; the code inspects versions only "
-                           "through Ord/Eq, so a 7-chain covers every order type of (two ranges, one probe); header "
-                           "values are sampled",
-        "trusted_base": COMMON_TB + [
-            "semver::Version::parse and Version::cmp (library): used by the harness to rank the chain and as the "
-            "parse oracle of header cases; the concrete order is modelled in Semver.v and compared separately",
-        ],
-        "assumptions": [
-            "dropshot inspects versions only through Ord/Eq (so chain indices are a faithful abstraction)",
-            "registration conflict is observed as a panic of ApiDescription::register for the second endpoint",
-        ],
-    },
-}
+PROPS = {}
+_d = os.path.join(os.path.dirname(os.path.abspath(__file__)), "propcfg")
+for _f in sorted(glob.glob(os.path.join(_d, "C[0-9]*.py"))):
+    _n = os.path.basename(_f)[:-3]
+    PROPS[_n] = importlib.import_module("propcfg." + _n).CFG
